@@ -14,6 +14,15 @@ class CallableObject:
         return 0.0
 
 
+class UnhashableCallable:
+    """a legal one-argument objective that cannot be hashed (defines __eq__ without __hash__)"""
+    def __call__(self, x):
+        return 0.0
+
+    def __eq__(self, other):
+        return self is other
+
+
 def make_obj(L, cls):
     np = L['np']
     k = L['kinds']
@@ -155,7 +164,7 @@ def values_for(L, setter, obj):
             [1, 2], [], {}, {'w': 1}, (1,), np.zeros(2), np.zeros((2, 1)), np.zeros(3), np.zeros(1), np.int64(3), np.float64(0.5),
             L['Node'](name=1, type='TERMINAL', value=np.zeros((1, 1))), L['Agent'](), (lambda x: 0.0), (lambda: 0.0), (lambda x, y: 0.0),
             (lambda x, y=2: 0.0), (lambda x, *, shift=0: 0.0), functools.partial((lambda x, y: 0.0), y=3), (lambda *a: 0.0),
-            CallableObject(), CallableObject().method, functools.partial((lambda a, x: 0.0), 1.0),
+            CallableObject(), CallableObject().method, functools.partial((lambda a, x: 0.0), 1.0), UnhashableCallable(),
             Unbuilt(), L['kinds']['PSO'](), L['Function'](pointer=lambda x: 0.0)]
     for g in setter['guards']:
         c = g['cdesc']
@@ -266,9 +275,46 @@ def check(ctx):
                     continue
                 if o != outcome:
                     C.issue('setter-mismatch', 'correspondence', rp, model=o, real=outcome)
+        # an accepted value belongs to the object it was given to: a second live object of the same class, given
+        # another value, must not change what the first one holds
+        import json as _json, os as _os
+        pinned = _json.load(open(_os.path.join(common.HERE, 'pinned_guards.json')))
+        by_key = {(s_['cls'], s_['attr']): s_ for s_ in tables['setters']}
+        generic = [1, 2, 3, 0.25, 0.5, 0.75, 'TERMINAL', 'FUNCTION', [1.0], [2.0], {'w': 0.5}, {'w': 0.6}, np.zeros(2), np.ones(2),
+                   np.zeros((2, 1)), np.ones((2, 1)), (lambda x: 0.0), (lambda x: 1.0)]
+        for cls_, attr_, _n in pinned:
+            o1, o2 = make_obj(L, cls_), make_obj(L, cls_)
+            if o1 is None or o2 is None:
+                continue
+            cand = (values_for(L, by_key[(cls_, attr_)], o1) if (cls_, attr_) in by_key else []) + generic
+            acc = []
+            for v in cand:
+                if isinstance(v, (bool, type(None))) or (isinstance(v, float) and v != v) or any(v is a_ for a_ in acc):
+                    continue
+                if acc and type(v) is type(acc[0]) and not isinstance(v, (np.ndarray, list, dict)) and not callable(v) and v == acc[0]:
+                    continue
+                try:
+                    setattr(make_obj(L, cls_), attr_, v)
+                    acc.append(v)
+                except Exception:
+                    pass
+                if len(acc) == 2:
+                    break
+            if len(acc) == 2:
+                try:
+                    setattr(o1, attr_, acc[0])
+                    setattr(o2, attr_, acc[1])
+                    got = getattr(o1, attr_)
+                    same = got is acc[0] or (isinstance(got, (int, float, str)) and type(got) is type(acc[0]) and got == acc[0])
+                    if not same and not (cls_ == 'Node' and attr_ == 'value'):
+                        C.issue('value-shared-between-objects', 'oracle', dict(how='two-objects', cls=cls_, attr=attr_,
+                                                                              first=repr(acc[0])[:40], second=repr(acc[1])[:40]), read_back=repr(got)[:40])
+                except Exception:
+                    pass
+                C.case(key=('two-objects', cls_, attr_), nontrivial=True, kind='two-objects')
         # Function / WeightedFunction constructors route the callable through the same setter: same outcome, and an
         # accepted callable (whatever its kind: function, lambda, callable object, bound method, partial) is stored
-        for v in [(lambda x: 0.0), CallableObject(), CallableObject().method, functools.partial((lambda a, x: 0.0), 1.0),
+        for v in [(lambda x: 0.0), CallableObject(), CallableObject().method, functools.partial((lambda a, x: 0.0), 1.0), UnhashableCallable(),
                   (lambda: 0.0), (lambda x, y: 0.0), (lambda x, y=2: 0.0), 3, None]:
             rp = dict(how='function-ctor', value=repr(v)[:60])
             probe = L['Function'](pointer=lambda x: 0.0)
@@ -277,6 +323,8 @@ def check(ctx):
                 want = 'accept'
             except tuple(errname) as ex:
                 want = errname[type(ex)]
+            except Exception as ex:
+                want = 'untyped:' + type(ex).__name__
             for how, build in (('Function', lambda: L['Function'](pointer=v)),
                                ('WeightedFunction', lambda: L['WeightedFunction'](functions=[v], weights=[1.0]))):
                 try:
